@@ -24,7 +24,8 @@ pub fn set_mtime(p: &Path, secs: i64) {
 
 pub fn get_mtime(p: &Path) -> Option<i64> {
     use std::os::unix::fs::MetadataExt;
-    std::fs::symlink_metadata(p).ok().map(|m| m.mtime())
+    // follows symlinks, like the state recorded by zinoma for a symlinked file
+    std::fs::metadata(p).ok().map(|m| m.mtime())
 }
 
 pub fn mkfifo(p: &Path) {
@@ -126,6 +127,7 @@ pub fn run_isolated(kind: &str, tier: &str, total: usize, workers: usize, extra:
         let wroot = parent_root.with_file_name(format!("{}-w{:02}", &parent_name[..parent_name.len() - 4], wi % 99));
         let mut out = vec![];
         let mut next = start;
+        let mut deaths = 0;
         while next < end {
             let started_at = next;
             let mut cmd = Command::new(&exe);
@@ -169,6 +171,12 @@ pub fn run_isolated(kind: &str, tier: &str, total: usize, workers: usize, extra:
                     let tail: String = err.lines().rev().take(6).collect::<Vec<_>>().into_iter().rev().collect::<Vec<_>>().join(" | ");
                     out.push(CaseOut { idx, verdict: "DIED".into(), detail: format!("worker process ended with {} while evaluating this case; stderr tail: {}", status, tail) });
                     next = idx + 1;
+                    deaths += 1;
+                    if deaths >= 8 {
+                        // the same failure keeps killing the worker: eight witnesses are enough, the rest of the range is not evaluated
+                        out.push(CaseOut { idx: next, verdict: "RANGE-ABANDONED".into(), detail: format!("{} cases of this range killed their worker; cases {}..{} not evaluated", deaths, next, end) });
+                        break;
+                    }
                 }
                 None if status.success() && next > started_at => {
                     // the worker asked for a restart after a case that left it in a bad state
